@@ -241,26 +241,32 @@ def r4(chk, prog, m):
     f = m.functions.get("json_c_visit")
     chk.require(f is not None and not f.is_decl, "json_c_visit not found")
     chk.touched(f)
-    h = TopPE(prog)
-    leaves = h.run(f, [("ptr", "jso", ()), pe.TOP, ("ptr", "userfunc", ()), ("ptr", "userarg", ())], pe.State())
     bad = None
     n = 0
-    for lf in leaves:
-        ev = [e for e in lf.state.trace if e[0] == "visit"]
-        if lf.kind != "ret" or len(ev) != 1:
-            bad = "unexpected path shape"
-            break
-        args = ev[0][1]
-        if args[0] != ("ptr", "jso", ()) or args[1] != pe.C(0) or args[2] != pe.C(0) or args[3] != pe.C(0):
-            bad = "root visit not started with (jso, NULL, NULL, NULL)"
-            break
-        root = ev[0][2][1]
-        for v in lf.state.roots[root]:
-            n += 1
-            want = 0 if v in (CONT, SKIP, POP, STOP) else -1
-            got = pe.ev(lf.value, {root: v})
-            if got != want:
-                bad = "root visit result %s is mapped to %d, documented result is %d" % (_name(v), got, want)
+    # the root may be any tree, including the one-node tree that is JSON null (a NULL json_object pointer)
+    for rootval, rootname in ((("ptr", "jso", ()), "a node"), (pe.C(0), "JSON null (NULL)")):
+        h = TopPE(prog)
+        leaves = h.run(f, [rootval, pe.TOP, ("ptr", "userfunc", ()), ("ptr", "userarg", ())], pe.State())
+        for lf in leaves:
+            ev = [e for e in lf.state.trace if e[0] == "visit"]
+            if lf.kind != "ret" or len(ev) != 1:
+                bad = "with the root being %s, json_c_visit %s (result %s): every tree, including a single null, is visited" % (
+                    rootname, "performs %d root visits" % len(ev) if lf.kind == "ret" else "ends with " + lf.kind,
+                    lf.value[1] if lf.value is not None and pe.is_const(lf.value) else "?")
+                break
+            args = ev[0][1]
+            if args[0] != rootval or args[1] != pe.C(0) or args[2] != pe.C(0) or args[3] != pe.C(0):
+                bad = "root visit not started with (jso, NULL, NULL, NULL)"
+                break
+            root = ev[0][2][1]
+            for v in lf.state.roots[root]:
+                n += 1
+                want = 0 if v in (CONT, SKIP, POP, STOP) else -1
+                got = pe.ev(lf.value, {root: v})
+                if got != want:
+                    bad = "root visit result %s is mapped to %d, documented result is %d" % (_name(v), got, want)
+                    break
+            if bad:
                 break
         if bad:
             break
